@@ -87,6 +87,9 @@ class AliasedQuery(Selectable):
 
     def get_sql(self, ctx: SqlContext) -> str:
         if self.query is None:
+            if ctx.with_alias and self.alias is not None and self.alias != self.name:
+                # a reference to the CTE under a name of its own (as_()): FROM c "p"
+                return format_alias_sql(self.name, self.alias, ctx)
             return self.name
         return self.query.get_sql(ctx)
 
